@@ -537,8 +537,8 @@ impl Scenario for PopScenario {
     }
     fn cases(&self, tier: Tier) -> u64 {
         match tier {
-            Tier::Quick => 12_000,
-            Tier::Thorough => 200_000,
+            Tier::Quick => 120_000,
+            Tier::Thorough => 2_000_000,
         }
     }
     fn run_case(&self, case_seed: u64, tier: Tier) -> CaseRecord {
